@@ -1,0 +1,434 @@
+//! verification seams, only compiled with the cargo feature `xsg_verif`
+//!
+//! * `HashMap`: a drop-in replacement for `std::collections::HashMap` inside this crate whose
+//!   iteration order is decided by a thread-local chooser (default: insertion order), so that an
+//!   explorer can enumerate the iteration orders a randomly seeded `HashMap` may produce
+//! * `ElementView`: a plain dump of the private fields of `Element`
+
+use std::borrow::Borrow;
+use std::cell::RefCell;
+use std::hash::Hash;
+
+/// a chooser receives the number of entries (>= 2) and returns a permutation of `0..n`
+pub type Chooser = Box<dyn FnMut(usize) -> Vec<usize>>;
+
+thread_local! {
+    static CHOOSER: RefCell<Option<Chooser>> = const { RefCell::new(None) };
+    static ITERATIONS: RefCell<u64> = const { RefCell::new(0) };
+}
+
+/// install (or remove) the chooser of the current thread, returns the previous one
+pub fn set_chooser(chooser: Option<Chooser>) -> Option<Chooser> {
+    CHOOSER.with(|c| std::mem::replace(&mut *c.borrow_mut(), chooser))
+}
+
+/// number of order decisions (iterations over maps with >= 2 entries) taken on this thread
+pub fn iterations() -> u64 {
+    ITERATIONS.with(|i| *i.borrow())
+}
+
+fn choose_order(n: usize) -> Vec<usize> {
+    if n < 2 {
+        return (0..n).collect();
+    }
+    ITERATIONS.with(|i| *i.borrow_mut() += 1);
+    // take the chooser out while it runs, so a chooser that touches a map cannot re-enter
+    let taken = CHOOSER.with(|c| c.borrow_mut().take());
+    match taken {
+        Some(mut f) => {
+            let order = f(n);
+            CHOOSER.with(|c| {
+                let mut slot = c.borrow_mut();
+                if slot.is_none() {
+                    *slot = Some(f);
+                }
+            });
+            let mut seen = vec![false; n];
+            for &i in order.iter() {
+                assert!(i < n && !seen[i], "xsg_verif chooser returned an invalid permutation");
+                seen[i] = true;
+            }
+            assert!(order.len() == n, "xsg_verif chooser returned an invalid permutation");
+            order
+        }
+        None => (0..n).collect(),
+    }
+}
+
+/// insertion ordered map with the API surface of `std::collections::HashMap` that this crate uses
+/// (and a superset of it); every iteration asks the chooser for the order. The order is fixed as
+/// long as the key set does not change, as for a real `HashMap`
+#[derive(Clone, Debug)]
+pub struct HashMap<K, V> {
+    entries: Vec<(K, V)>,
+    order: RefCell<Option<Vec<usize>>>,
+}
+
+impl<K, V> Default for HashMap<K, V> {
+    fn default() -> Self {
+        HashMap {
+            entries: Vec::new(),
+            order: RefCell::new(None),
+        }
+    }
+}
+
+impl<K, V> HashMap<K, V> {
+    pub fn new() -> Self {
+        Self::default()
+    }
+
+    pub fn with_capacity(_capacity: usize) -> Self {
+        Self::default()
+    }
+
+    pub fn len(&self) -> usize {
+        self.entries.len()
+    }
+
+    pub fn is_empty(&self) -> bool {
+        self.entries.is_empty()
+    }
+
+    pub fn clear(&mut self) {
+        self.entries.clear();
+        *self.order.borrow_mut() = None;
+    }
+
+    fn current_order(&self) -> Vec<usize> {
+        let mut order = self.order.borrow_mut();
+        if order.is_none() {
+            *order = Some(choose_order(self.entries.len()));
+        }
+        order.clone().unwrap_or_default()
+    }
+
+    pub fn iter(&self) -> std::vec::IntoIter<(&K, &V)> {
+        let order = self.current_order();
+        order
+            .into_iter()
+            .map(|i| (&self.entries[i].0, &self.entries[i].1))
+            .collect::<Vec<_>>()
+            .into_iter()
+    }
+
+    pub fn iter_mut(&mut self) -> std::vec::IntoIter<(&K, &mut V)> {
+        let order = self.current_order();
+        let mut slots: Vec<Option<(&K, &mut V)>> = self
+            .entries
+            .iter_mut()
+            .map(|(k, v)| Some((&*k, v)))
+            .collect();
+        order
+            .into_iter()
+            .filter_map(|i| slots[i].take())
+            .collect::<Vec<_>>()
+            .into_iter()
+    }
+
+    pub fn keys(&self) -> std::vec::IntoIter<&K> {
+        self.iter().map(|(k, _)| k).collect::<Vec<_>>().into_iter()
+    }
+
+    pub fn values(&self) -> std::vec::IntoIter<&V> {
+        self.iter().map(|(_, v)| v).collect::<Vec<_>>().into_iter()
+    }
+
+    pub fn values_mut(&mut self) -> std::vec::IntoIter<&mut V> {
+        self.iter_mut()
+            .map(|(_, v)| v)
+            .collect::<Vec<_>>()
+            .into_iter()
+    }
+
+    pub fn into_keys(self) -> std::vec::IntoIter<K> {
+        self.into_iter()
+            .map(|(k, _)| k)
+            .collect::<Vec<_>>()
+            .into_iter()
+    }
+
+    pub fn into_values(self) -> std::vec::IntoIter<V> {
+        self.into_iter()
+            .map(|(_, v)| v)
+            .collect::<Vec<_>>()
+            .into_iter()
+    }
+
+    pub fn drain(&mut self) -> std::vec::IntoIter<(K, V)> {
+        std::mem::take(self).into_iter()
+    }
+}
+
+impl<K: Eq + Hash, V> HashMap<K, V> {
+    fn index_of<Q>(&self, key: &Q) -> Option<usize>
+    where
+        K: Borrow<Q>,
+        Q: Eq + Hash + ?Sized,
+    {
+        self.entries.iter().position(|(k, _)| k.borrow() == key)
+    }
+
+    pub fn insert(&mut self, key: K, value: V) -> Option<V> {
+        match self.index_of(&key) {
+            Some(i) => Some(std::mem::replace(&mut self.entries[i].1, value)),
+            None => {
+                self.entries.push((key, value));
+                *self.order.borrow_mut() = None;
+                None
+            }
+        }
+    }
+
+    pub fn get<Q>(&self, key: &Q) -> Option<&V>
+    where
+        K: Borrow<Q>,
+        Q: Eq + Hash + ?Sized,
+    {
+        self.index_of(key).map(|i| &self.entries[i].1)
+    }
+
+    pub fn get_mut<Q>(&mut self, key: &Q) -> Option<&mut V>
+    where
+        K: Borrow<Q>,
+        Q: Eq + Hash + ?Sized,
+    {
+        match self.index_of(key) {
+            Some(i) => Some(&mut self.entries[i].1),
+            None => None,
+        }
+    }
+
+    pub fn get_key_value<Q>(&self, key: &Q) -> Option<(&K, &V)>
+    where
+        K: Borrow<Q>,
+        Q: Eq + Hash + ?Sized,
+    {
+        self.index_of(key)
+            .map(|i| (&self.entries[i].0, &self.entries[i].1))
+    }
+
+    pub fn contains_key<Q>(&self, key: &Q) -> bool
+    where
+        K: Borrow<Q>,
+        Q: Eq + Hash + ?Sized,
+    {
+        self.index_of(key).is_some()
+    }
+
+    pub fn remove<Q>(&mut self, key: &Q) -> Option<V>
+    where
+        K: Borrow<Q>,
+        Q: Eq + Hash + ?Sized,
+    {
+        self.remove_entry(key).map(|(_, v)| v)
+    }
+
+    pub fn remove_entry<Q>(&mut self, key: &Q) -> Option<(K, V)>
+    where
+        K: Borrow<Q>,
+        Q: Eq + Hash + ?Sized,
+    {
+        match self.index_of(key) {
+            Some(i) => {
+                *self.order.borrow_mut() = None;
+                Some(self.entries.remove(i))
+            }
+            None => None,
+        }
+    }
+
+    pub fn retain<F: FnMut(&K, &mut V) -> bool>(&mut self, mut f: F) {
+        self.entries.retain_mut(|(k, v)| f(k, v));
+        *self.order.borrow_mut() = None;
+    }
+
+    pub fn entry(&mut self, key: K) -> Entry<'_, K, V> {
+        match self.index_of(&key) {
+            Some(index) => Entry::Occupied(OccupiedEntry { map: self, index }),
+            None => Entry::Vacant(VacantEntry { map: self, key }),
+        }
+    }
+}
+
+pub enum Entry<'a, K, V> {
+    Occupied(OccupiedEntry<'a, K, V>),
+    Vacant(VacantEntry<'a, K, V>),
+}
+
+pub struct OccupiedEntry<'a, K, V> {
+    map: &'a mut HashMap<K, V>,
+    index: usize,
+}
+
+pub struct VacantEntry<'a, K, V> {
+    map: &'a mut HashMap<K, V>,
+    key: K,
+}
+
+impl<'a, K, V> OccupiedEntry<'a, K, V> {
+    pub fn key(&self) -> &K {
+        &self.map.entries[self.index].0
+    }
+
+    pub fn get(&self) -> &V {
+        &self.map.entries[self.index].1
+    }
+
+    pub fn get_mut(&mut self) -> &mut V {
+        &mut self.map.entries[self.index].1
+    }
+
+    pub fn into_mut(self) -> &'a mut V {
+        &mut self.map.entries[self.index].1
+    }
+
+    pub fn insert(&mut self, value: V) -> V {
+        std::mem::replace(&mut self.map.entries[self.index].1, value)
+    }
+}
+
+impl<'a, K, V> VacantEntry<'a, K, V> {
+    pub fn key(&self) -> &K {
+        &self.key
+    }
+
+    pub fn insert(self, value: V) -> &'a mut V {
+        self.map.entries.push((self.key, value));
+        *self.map.order.borrow_mut() = None;
+        let last = self.map.entries.len() - 1;
+        &mut self.map.entries[last].1
+    }
+}
+
+impl<'a, K, V> Entry<'a, K, V> {
+    pub fn or_insert(self, default: V) -> &'a mut V {
+        match self {
+            Entry::Occupied(e) => e.into_mut(),
+            Entry::Vacant(e) => e.insert(default),
+        }
+    }
+
+    pub fn or_insert_with<F: FnOnce() -> V>(self, default: F) -> &'a mut V {
+        match self {
+            Entry::Occupied(e) => e.into_mut(),
+            Entry::Vacant(e) => e.insert(default()),
+        }
+    }
+
+    pub fn or_default(self) -> &'a mut V
+    where
+        V: Default,
+    {
+        self.or_insert_with(V::default)
+    }
+
+    pub fn and_modify<F: FnOnce(&mut V)>(mut self, f: F) -> Self {
+        if let Entry::Occupied(e) = &mut self {
+            f(e.get_mut());
+        }
+        self
+    }
+
+    pub fn key(&self) -> &K {
+        match self {
+            Entry::Occupied(e) => e.key(),
+            Entry::Vacant(e) => e.key(),
+        }
+    }
+}
+
+impl<K, V> IntoIterator for HashMap<K, V> {
+    type Item = (K, V);
+    type IntoIter = std::vec::IntoIter<(K, V)>;
+
+    fn into_iter(self) -> Self::IntoIter {
+        let order = self.current_order();
+        let mut slots: Vec<Option<(K, V)>> = self.entries.into_iter().map(Some).collect();
+        order
+            .into_iter()
+            .filter_map(|i| slots[i].take())
+            .collect::<Vec<_>>()
+            .into_iter()
+    }
+}
+
+impl<'a, K, V> IntoIterator for &'a HashMap<K, V> {
+    type Item = (&'a K, &'a V);
+    type IntoIter = std::vec::IntoIter<(&'a K, &'a V)>;
+
+    fn into_iter(self) -> Self::IntoIter {
+        self.iter()
+    }
+}
+
+impl<'a, K, V> IntoIterator for &'a mut HashMap<K, V> {
+    type Item = (&'a K, &'a mut V);
+    type IntoIter = std::vec::IntoIter<(&'a K, &'a mut V)>;
+
+    fn into_iter(self) -> Self::IntoIter {
+        self.iter_mut()
+    }
+}
+
+impl<K: Eq + Hash, V> FromIterator<(K, V)> for HashMap<K, V> {
+    fn from_iter<I: IntoIterator<Item = (K, V)>>(iter: I) -> Self {
+        let mut map = HashMap::new();
+        for (k, v) in iter {
+            map.insert(k, v);
+        }
+        map
+    }
+}
+
+impl<K: Eq + Hash, V> Extend<(K, V)> for HashMap<K, V> {
+    fn extend<I: IntoIterator<Item = (K, V)>>(&mut self, iter: I) {
+        for (k, v) in iter {
+            self.insert(k, v);
+        }
+    }
+}
+
+impl<K: Eq + Hash, V, const N: usize> From<[(K, V); N]> for HashMap<K, V> {
+    fn from(arr: [(K, V); N]) -> Self {
+        arr.into_iter().collect()
+    }
+}
+
+impl<K, Q, V> std::ops::Index<&Q> for HashMap<K, V>
+where
+    K: Eq + Hash + Borrow<Q>,
+    Q: Eq + Hash + ?Sized,
+{
+    type Output = V;
+
+    fn index(&self, key: &Q) -> &V {
+        self.get(key).expect("no entry found for key")
+    }
+}
+
+impl<K: Eq + Hash, V: PartialEq> PartialEq for HashMap<K, V> {
+    fn eq(&self, other: &Self) -> bool {
+        self.len() == other.len()
+            && self
+                .entries
+                .iter()
+                .all(|(k, v)| other.get(k).map_or(false, |o| o == v))
+    }
+}
+
+impl<K: Eq + Hash, V: Eq> Eq for HashMap<K, V> {}
+
+/// plain dump of an `Element`, including its private fields
+#[derive(Clone, Debug, PartialEq, Eq)]
+pub struct ElementView {
+    pub name: String,
+    pub has_text: bool,
+    pub standalone: bool,
+    pub count: u32,
+    /// (attribute name, mandatory)
+    pub attributes: Vec<(String, bool)>,
+    pub position: Option<usize>,
+    /// (mandatory, child) in internal order
+    pub children: Vec<(bool, ElementView)>,
+}
